@@ -9,6 +9,7 @@ requests).
 import JulianVerif.Lemmas.TextRoundTrip
 import JulianVerif.Lemmas.ShapedInst
 import JulianVerif.Lemmas.Grammar
+import JulianVerif.Lemmas.GenLib
 set_option linter.unusedSimpArgs false
 namespace JV.C13
 open JV Spec
@@ -166,5 +167,18 @@ theorem parse_year_month_day (c : Calendar) (sg : Sign) (Y M D : List Char)
         else .error .parseInt
       else .error .parseInt :=
   parseDate_ymd_form c sg Y M D hY hM hD
+
+/-! ### `Display` as GENERATED from the source
+
+`Gen.dateFmt`, `Gen.monthFmt`, `Gen.weekdayFmt` are produced by bin/libgen from the three `impl
+fmt::Display` blocks of lib.rs (`write!(f, "{:04}-", …)?` appends the formatted text to an accumulator;
+`f.alternate()` is a parameter); they are the model's `fmtDate` / `fmtDateAlt` and name functions the
+theorems above are about. -/
+
+theorem generated_display (d : Date) (m : Month) (w : Weekday) (alt : Bool) :
+    Gen.dateFmt d false = fmtDate d ∧ Gen.dateFmt d true = fmtDateAlt d
+    ∧ Gen.monthFmt m alt = (if alt then m.shortName else m.name).toList
+    ∧ Gen.weekdayFmt w alt = (if alt then w.shortName else w.name).toList :=
+  ⟨(Gen.dateFmt_eq d).1, (Gen.dateFmt_eq d).2, Gen.monthFmt_eq m alt, Gen.weekdayFmt_eq w alt⟩
 
 end JV.C13
